@@ -1,5 +1,6 @@
 (** C04 — apply/start run exactly the requested invocations.  Property theorem only. *)
-From TP Require Import PSpec PRun PWF PProps_B PProps_B_inv PRest PRest_nc PExamples.
+From Coq Require Import Permutation.
+From TP Require Import PSpec PRun PWF PProps_B PProps_B_inv PRest PRest_nc PExamples PProps_C04sk.
 
 Theorem C04 : forall c tr, clean (run c tr) -> C04_spec (run c tr).
 Proof.
@@ -25,11 +26,73 @@ Theorem C04_complete_at_rest : forall c tr,
     match m_kind y with
     | MMap _ => m_idx y = length (m_els y) /\
                 tasks_of (run c tr) m + count e_bad (m_els y) = length (m_els y)
-    | _ => tasks_of (run c tr) m = (if m_bad y then 0 else m_num y)
+    | _ => tasks_of (run c tr) m = ngood (m_bad y) (m_num y)
     end.
 Proof.
   intros c tr Hc. apply requests_complete_at_rest; [now apply WFx_run|apply Extra_nc_run].
 Qed.
+
+(** The per-invocation clause, directly: "an invocation whose call raises synchronously is skipped
+    without affecting the others".  The request carries an arbitrary failure pattern [m_bad y]
+    (invocation [i] raises iff [nth i (m_bad y) false = true]).  For an apply()/start() request
+    whose spawner ended normally and whose group was not cancelled:
+    (1) every task of the request was made for a non-failing invocation index below [num];
+    (2) every non-failing invocation index below [num] has a task (none is lost, whatever the
+        failing ones did);
+    (3) no invocation index has two tasks;
+    (4) as lists: the invocation indices of the request's tasks are a permutation of the
+        non-failing indices below [num]. *)
+Theorem C04_skips_exactly_failing : forall c tr,
+  clean (run c tr) -> taint_iter (run c tr) = false ->
+  forall m y, get_m (run c tr) m = Some y -> is_apply_kind y = true ->
+    m_final y = Some OResult -> m_dead y = false ->
+    (forall t x, get_p (run c tr) t = Some x -> p_req x = m ->
+                 p_el x < m_num y /\ nth (p_el x) (m_bad y) false = false) /\
+    (forall i, i < m_num y -> nth i (m_bad y) false = false ->
+               exists t x, get_p (run c tr) t = Some x /\ p_req x = m /\ p_el x = i) /\
+    (forall t u x z, get_p (run c tr) t = Some x -> get_p (run c tr) u = Some z ->
+                     p_req x = m -> p_req z = m -> p_el x = p_el z -> t = u) /\
+    Permutation (indices_of (run c tr) m) (good_indices (m_bad y) (m_num y)).
+Proof.
+  intros c tr Hc Hti m y Hy Hk Hf Hd.
+  pose proof (c04_complete _ (C04 c tr Hc) Hti m y Hy Hk Hf Hd) as Hcnt.
+  destruct (WFx_run c tr Hc) as [W].
+  destruct (skips_exactly_failing _ m y W Hy Hk Hcnt) as (H1 & H2 & H3).
+  repeat split; auto.
+  - apply (H1 t x); auto.
+  - apply (H1 t x); auto.
+  - apply indices_exactly_good; auto.
+Qed.
+
+(** Non-vacuity: apply(num=4) whose calls 0 and 2 raise, on a size-2 pool with workers that
+    return at once: exactly the invocations 1 and 3 became tasks (ids 0 and 1), the spawner ended
+    normally. *)
+Definition w_ret : wspec := {| w_first := WReturn; w_cancel := WPropagate |}.
+Definition tr_mixed : list label :=
+  [ LOp (OpApply 4 [true; false; true; false] false w_ret CbNone CbNone None); LRun (HT (TM 0)) ].
+
+Example C04_mixed_example :
+  let s := run cfg2 tr_mixed in
+  clean s /\ taint_iter s = false /\ map m_final (mtasks s) = [Some OResult] /\
+  map m_dead (mtasks s) = [false] /\ tasks_of s 0 = 2 /\
+  map (fun x => (p_req x, p_el x)) (ptasks s) = [(0, 1); (0, 3)] /\
+  indices_of s 0 = [1; 3] /\ good_indices [true; false; true; false] 4 = [1; 3].
+Proof. vm_compute. repeat split; reflexivity. Qed.
+
+(** SimpleTaskPool: the pool's function fails at invocation indices 0 and 2 of EACH start()
+    request: start(4) makes the invocations 1 and 3, start(2) the invocation 1. *)
+Definition cfgS_mixed : config :=
+  {| cf_size := Inf; cf_kind := KSimple; cf_bad := [true; false; true; false]; cf_w := w_ret;
+     cf_ecb := CbNone; cf_ccb := CbNone |}.
+Definition tr_mixed_start : list label :=
+  [ LOp (OpStart 4); LOp (OpStart 2); LRun (HT (TM 0)); LRun (HT (TM 1)) ].
+
+Example C04_mixed_start_example :
+  let s := run cfgS_mixed tr_mixed_start in
+  clean s /\ taint_iter s = false /\ map m_final (mtasks s) = [Some OResult; Some OResult] /\
+  indices_of s 0 = [1; 3] /\ indices_of s 1 = [1] /\
+  map expected_created (mtasks s) = [2; 1].
+Proof. vm_compute. repeat split; reflexivity. Qed.
 
 Example C04_example :
   let s := run cfg2 tr_cancel in
@@ -44,4 +107,5 @@ Proof. exact PMonSound_C04.mon_C04_sound. Qed.
 Print Assumptions C04.
 Print Assumptions C04_nothing_stranded.
 Print Assumptions C04_complete_at_rest.
+Print Assumptions C04_skips_exactly_failing.
 Print Assumptions mon_sound.
